@@ -4,7 +4,10 @@
 package discovery
 
 import (
+	"errors"
+	iofs "io/fs"
 	"os"
+	"time"
 
 	"github.com/mimecast/dtail/internal/io/dlog"
 	"github.com/mimecast/dtail/internal/source"
@@ -12,11 +15,24 @@ import (
 	"github.com/mimecast/dtail/internal/verifrt"
 )
 
+// what kind of file the server list is: a regular file, a named pipe (--servers <(inventory)
+// gives /dev/fd/N of a pipe) or a character device (/dev/stdin on a terminal)
+var c18cMode iofs.FileMode
+
+type c18cInfo struct{ mode iofs.FileMode }
+
+func (i c18cInfo) Name() string        { return "servers" }
+func (i c18cInfo) Size() int64         { return 0 }
+func (i c18cInfo) Mode() iofs.FileMode { return i.mode }
+func (i c18cInfo) ModTime() time.Time  { return time.Time{} }
+func (i c18cInfo) IsDir() bool         { return false }
+func (i c18cInfo) Sys() interface{}    { return nil }
+
 func c18cStat(name string) (os.FileInfo, error) {
 	if _, ok := memfs.FS[name]; ok {
-		return nil, nil
+		return c18cInfo{c18cMode}, nil
 	}
-	return nil, os.ErrNotExist
+	return nil, errors.New("stat " + name + ": no such file or directory")
 }
 
 // VerifC18cFile: the server list comes from a file of n arbitrary bytes (one
@@ -24,6 +40,7 @@ func c18cStat(name string) (os.FileInfo, error) {
 func VerifC18cFile(n int) {
 	dlog.VerifInstall(source.Client)
 	memfs.Reset()
+	c18cMode = []iofs.FileMode{0o644, iofs.ModeNamedPipe | 0o600, iofs.ModeDevice | iofs.ModeCharDevice | 0o620}[verifrt.Choose("kind-of-file", 3)]
 	content := verifrt.StringIn("file", n, "ab\n\r,")
 	memfs.FS["servers.txt"] = &memfs.File{Data: []byte(content)}
 	d := New("", "servers.txt", Shuffle)
